@@ -185,6 +185,18 @@ def compare_views(ctx, obj, m, attr, keys, label, extra):
     other = build(m.kind, m.items())
     if not (obj == other and other == obj) or (obj != other):
         problems.append(("equality with independently built object", False, True))
+    # against an object of another type holding the same pairs, == and != must at least contradict each other
+    from collections import OrderedDict as _OD
+
+    for other_obj in (dict(m.items()), _OD(m.items()), build({"sm": "ssc", "ssc": "sm", "sscchart": "ssc"}[m.kind], m.items()), None):
+        try:
+            e, n = (obj == other_obj), (obj != other_obj)
+        except Exception as ex:
+            problems.append(("comparison with another type raised", repr(ex), None))
+            break
+        if bool(e) == bool(n):
+            problems.append((f"== and != agree against a {type(other_obj).__name__}", (e, n), None))
+            break
     if len(m.d) >= 2:
         # the same key/value pairs inserted in the opposite order are another mapping (insertion order is content)
         rev = build(m.kind, list(reversed(m.items())))
@@ -206,6 +218,15 @@ def compare_views(ctx, obj, m, attr, keys, label, extra):
                 want = m.items()
             if back != want:
                 problems.append(("serialization", back, want))
+            # the text itself, read by the trusted tokenizer: one parameter per pair, components as the format defines them
+            from msdparser import parse_msd
+
+            toks = [tuple(p.components) for p in parse_msd(string=text)]
+            wtoks = [M.param_components(k, v) for k, v in (m.items() if m.kind != "sscchart" else M.SSCChartModel(m.items()).moved_last())]
+            if m.kind == "sscchart":
+                toks = toks[1:]   # the NOTEDATA parameter that opens the chart
+            if toks != wtoks:
+                problems.append(("serialized text (tokenizer)", toks[:6], wtoks[:6]))
             if list(obj.items()) != m.items():
                 problems.append(("serializing modified the mapping", list(obj.items()), m.items()))
         except Exception as e:
@@ -343,12 +364,13 @@ def check_random(ctx, case):
     m = M.Mapping(kind)
     attrs = M.ATTRS[kind]
     alias_keys = ["FREEZES", "ANIMATIONS", "NOTES2"]
-    HARD = ["a\r\nb", "lone\rcr", "AC\\DC", "bg\\clip.avi " + "y" * 2100, "x" * 2050 + "\\", "two\nlines\r\n"]
+    HARD = ["a\r\nb", "lone\rcr", "AC\\DC", "bg\\clip.avi " + "y" * 2100, "x" * 2050 + "\\", "two\nlines\r\n", "a:b", "1:2:3"]
+    NEAR_MULTI = ["BPM", "DISPLAY", "ATTACK", "A", "S", "K"]   # unrelated keys that are substrings of the multi-value keys
     for step in range(200):
         a = rng.choice(attrs) if rng.random() < 0.6 else rng.choice(["stops", "notes"] if kind == "sscchart" else ["stops", "bgchanges"])
         r = rng.random()
         if r < 0.45:
-            key = rng.choice([a.upper(), rng.choice(alias_keys), UNRELATED, rng.choice(attrs).upper()])
+            key = rng.choice([a.upper(), rng.choice(alias_keys), UNRELATED, rng.choice(attrs).upper(), rng.choice(NEAR_MULTI)])
             op = rng.choice([("setkey", key, rng.choice(VALUES + ["v%d" % step] + HARD)), ("delkey", key), ("getkey", key), ("in", key)])
         else:
             op = rng.choice([("setattr", rng.choice(VALUES + ["v%d" % step] + HARD)), ("delattr",), ("getattr",), ("iter",), ("len",)])
